@@ -448,7 +448,7 @@ impl Worker {
             },
         );
 
-        let write_offset = writer_set.writer.write_offset();
+        let mut write_offset = writer_set.writer.write_offset();
         let events_size = events
             .iter()
             .map(|event| {
@@ -470,11 +470,13 @@ impl Worker {
             return;
         }
 
-        if write_offset as usize + events_size > writer_set.segment_size
-            && let Err(err) = writer_set.rollover()
-        {
-            let _ = reply_tx.send(Err(err));
-            return;
+        if write_offset as usize + events_size > writer_set.segment_size {
+            if let Err(err) = writer_set.rollover() {
+                let _ = reply_tx.send(Err(err));
+                return;
+            }
+            // a failed write is rolled back to where it starts, which is now in the new segment
+            write_offset = writer_set.writer.write_offset();
         }
 
         let bytes_since_sync = writer_set.bytes_since_sync;
